@@ -3,6 +3,7 @@ SPECIFICATION Spec
 CONSTANTS
   Kinds <- AllKinds
   MaxToks = 4
+  NumMaxToks = 2
   Emit = TRUE
-INVARIANTS InvFilesLineIndependent InvSettersInRange EmitScenario
+INVARIANTS InvFilesLineIndependent InvSettersInRange InvNumInRange EmitScenario
 CHECK_DEADLOCK FALSE
